@@ -640,6 +640,41 @@ class SBytes:
         self.b = _len(self.d)
         return self
 
+    def _strip(self, chars, left, right):
+        ws = b' \t\n\r\x0b\x0c' if chars is None else _bytes(chars)
+        items = self.items()
+
+        def isws(v):
+            if v.__class__ is _int:
+                return v in ws
+            for c in ws:
+                if v == c:              # SBool -> branch
+                    return True
+            return False
+        a, b = 0, _len(items)
+        while left and a < b and isws(items[a]):
+            a += 1
+        while right and b > a and isws(items[b - 1]):
+            b -= 1
+        return SBytes(items[a:b], kind='bytes' if self.kind == 'memoryview' else self.kind)
+
+    def strip(self, chars=None):
+        return self._strip(chars, True, True)
+
+    def lstrip(self, chars=None):
+        return self._strip(chars, True, False)
+
+    def rstrip(self, chars=None):
+        return self._strip(chars, False, True)
+
+    def rjust(self, width, fill=b'\x00'):
+        pad = width - len(self) if width > len(self) else 0
+        return SBytes([fill[0]] * pad + self.items(), kind='bytes' if self.kind == 'memoryview' else self.kind)
+
+    def ljust(self, width, fill=b'\x00'):
+        pad = width - len(self) if width > len(self) else 0
+        return SBytes(self.items() + [fill[0]] * pad, kind='bytes' if self.kind == 'memoryview' else self.kind)
+
     def extend(self, o):
         if self.kind != 'bytearray':
             raise AttributeError("'%s' object has no attribute 'extend'" % self.kind)
@@ -730,7 +765,7 @@ def unpack_uint(chunk):
 # --------------------------------------------------------------------------------------------
 # struct shim
 # --------------------------------------------------------------------------------------------
-_FMT = {'B': 1, 'H': 2, 'I': 4, 'Q': 8}
+_FMT = {'B': 1, 'H': 2, 'I': 4, 'L': 4, 'Q': 8}       # unsigned, network order ('L' is 4 bytes with '!')
 
 
 class SymStruct:
